@@ -79,4 +79,20 @@ def scaleDynKinds (s : V3 K) : List Kind3 → List Kind3
   | k :: ks => scaleDynKind s k :: scaleDynKinds s ks
 end
 
+
+/-! ### the index buffer of `TriMesh::scaled` (with `fixes/C19-trimesh-scaled-mirror-winding.diff`: the CORRECTED behaviour)
+
+```rust
+if self.flags.contains(TriMeshFlags::ORIENTED) && scale.iter().filter(|s| **s < 0.0).count() % 2 == 1 { self.reverse(); }
+```
+`reverse` exchanges the first two indices of every triangle.  On the pinned tree the index buffer is always kept. -/
+def mirrors (s : V3 K) : Bool :=
+  ((if s.x < 0 then 1 else 0) + (if s.y < 0 then 1 else 0) + (if s.z < 0 then 1 else 0) : Nat) % 2 == 1
+def swap01 (t : Nat × Nat × Nat) : Nat × Nat × Nat := (t.2.1, t.1, t.2.2)
+def trimeshScaledIdx (oriented : Bool) (s : V3 K) (idx : List (Nat × Nat × Nat)) : List (Nat × Nat × Nat) :=
+  if oriented && mirrors s then idx.map swap01 else idx
+/-- the same on the three (scaled) corners of one triangle -/
+def rewind (oriented : Bool) (s : V3 K) (a b c : V3 K) : V3 K × V3 K × V3 K :=
+  if oriented && mirrors s then (b, a, c) else (a, b, c)
+
 end Model.Acc
